@@ -98,7 +98,13 @@ macro_rules! impl_bit_value {
                 if val & (1 << (len - 1)) == 0 {
                     val
                 } else {
-                    val.wrapping_neg() | (1 << (len - 1))
+                    // magnitude bits only; a zero magnitude is plain zero, never "negative zero"
+                    let mag = val.wrapping_neg() & !(-1 << (len - 1));
+                    if mag == 0 {
+                        mag
+                    } else {
+                        mag | (1 << (len - 1))
+                    }
                 }
             }
         }
